@@ -60,8 +60,82 @@ Section Journal.
   (* (Sum, ChunkIncluded) *)
   Definition count (from to : Z) (j : list chunk) : N * N :=
     let r := count_loop from to j [] 0%N in (N.of_nat (length (fst r)), snd r).
+
+  (* ---------- a sink that fails: what WriteIPSetToDisk does on each error path ----------
+     WriteIPSetToDisk:  currentTime := now; data := Dump(); line := json(lastWriteTime, currentTime, data) + "\n";
+                        _, err = io.Copy(writer, line); if err != nil { log; return }       -- nothing else changes
+                        writer.Sync()                                                      -- result DISCARDED
+                        lastWriteTime = currentTime; current.Reset()
+     io.Copy hands the whole line to one Write call.  A failing Write may have taken a prefix of the line:
+       nothing / an incomplete JSON text / the whole JSON text but not the newline / the whole line (and still an error).
+     Whatever was taken stays in the file; the writer's own state (lastWriteTime, the sketch) is unchanged on every
+     error path, so the next chunk again starts at the time of the last write the writer took for successful.
+     The journal file is a sequence of lines; a line is a chunk, or unparsable ([None]): a whole line appended
+     behind an unterminated rest forms ONE unparsable line with it.  The reader (ClusterCounter.Count) fails on the
+     first unparsable line it meets, before looking at any window. *)
+  Inductive wres :=
+  | WOk            (* Write and Sync succeed *)
+  | WSyncErr       (* Write succeeds, Sync returns an error (ignored by the code) *)
+  | WNone          (* Write fails, nothing written *)
+  | WTorn          (* Write fails after an incomplete JSON text *)
+  | WNoNewline     (* Write fails after the complete JSON text, before the newline *)
+  | WWhole.        (* the whole line is written and Write still reports an error *)
+
+  Inductive tail := TEmpty | TTorn | TJson (c : chunk).   (* what follows the last newline of the file *)
+
+  Record fwriter := { f_last : Z; f_int : Z; f_cur : list hash; f_lines : list (option chunk); f_tail : tail;
+                      f_plan : list wres (* how the next Write calls behave; WOk when exhausted *) }.
+
+  Definition fnew (now interval : Z) (plan : list wres) : fwriter :=
+    {| f_last := now; f_int := interval; f_cur := []; f_lines := []; f_tail := TEmpty; f_plan := plan |}.
+
+  (* a complete line (text + newline) reaches the file *)
+  Definition put_line (c : chunk) (w : fwriter) : list (option chunk) :=
+    f_lines w ++ [match f_tail w with TEmpty => Some c | _ => None end].
+
+  (* WriteIPSetToDisk against the sink's next behaviour *)
+  Definition fflush (now : Z) (w : fwriter) : fwriter :=
+    let c := {| c_start := f_last w; c_end := now; c_sk := f_cur w |} in
+    let r := match f_plan w with [] => WOk | r :: _ => r end in
+    let plan := tl (f_plan w) in
+    match r with
+    | WOk | WSyncErr =>
+        {| f_last := now; f_int := f_int w; f_cur := []; f_lines := put_line c w; f_tail := TEmpty; f_plan := plan |}
+    | WNone =>
+        {| f_last := f_last w; f_int := f_int w; f_cur := f_cur w; f_lines := f_lines w; f_tail := f_tail w; f_plan := plan |}
+    | WTorn =>
+        {| f_last := f_last w; f_int := f_int w; f_cur := f_cur w; f_lines := f_lines w; f_tail := TTorn; f_plan := plan |}
+    | WNoNewline =>
+        {| f_last := f_last w; f_int := f_int w; f_cur := f_cur w; f_lines := f_lines w;
+           f_tail := match f_tail w with TEmpty => TJson c | _ => TTorn end; f_plan := plan |}
+    | WWhole =>
+        {| f_last := f_last w; f_int := f_int w; f_cur := f_cur w; f_lines := put_line c w; f_tail := TEmpty; f_plan := plan |}
+    end.
+
+  Definition fadd (now : Z) (ip : addr) (w : fwriter) : fwriter :=
+    let w' := if f_last w + f_int w <? now then fflush now w else w in
+    {| f_last := f_last w'; f_int := f_int w'; f_cur := sk_add (f_cur w') (mask ip); f_lines := f_lines w';
+       f_tail := f_tail w'; f_plan := f_plan w' |}.
+
+  Definition fapply (w : fwriter) (o : jop) : fwriter :=
+    match o with Add now ip => fadd now ip w | Flush now => fflush now w end.
+  Definition fjrun (ops : list jop) (w : fwriter) : fwriter := fold_left fapply ops w.
+
+  (* the file as the reader's line scanner sees it: an unterminated rest is a last line *)
+  Definition file_of (w : fwriter) : list (option chunk) :=
+    f_lines w ++ match f_tail w with TEmpty => [] | TTorn => [None] | TJson c => [Some c] end.
+
+  Fixpoint good_lines (f : list (option chunk)) : list chunk :=
+    match f with [] => [] | Some c :: r => c :: good_lines r | None :: r => good_lines r end.
+  Definition readable (f : list (option chunk)) : bool := forallb (fun l => match l with Some _ => true | None => false end) f.
+  (* ClusterCounter.Count over the file: an error as soon as one line does not parse *)
+  Definition fcount (from to : Z) (f : list (option chunk)) : option (N * N) :=
+    if readable f then Some (count from to (good_lines f)) else None.
 End Journal.
 
 Arguments c_start {hash}. Arguments c_end {hash}. Arguments c_sk {hash}. Arguments Build_chunk {hash}.
 Arguments w_last {hash}. Arguments w_int {hash}. Arguments w_cur {hash}. Arguments w_out {hash}.
 Arguments new_writer {hash}. Arguments Add {addr}. Arguments Flush {addr}.
+Arguments f_last {hash}. Arguments f_int {hash}. Arguments f_cur {hash}. Arguments f_lines {hash}. Arguments f_tail {hash}.
+Arguments f_plan {hash}. Arguments fnew {hash}. Arguments TEmpty {hash}. Arguments TTorn {hash}. Arguments TJson {hash}.
+Arguments file_of {hash}. Arguments good_lines {hash}. Arguments readable {hash}.
